@@ -342,10 +342,10 @@ func RunC10(r *core.Run) {
 			L = fam.lt
 		}
 		es := NewEnum(fam.alpha, L)
-		st = r.Stage("uri-port-invariant/"+fam.alpha, es.Size()*2, func(w *core.Worker, idx int64) {
+		st = r.Stage("uri-port-invariant/"+fam.alpha, es.Size()*3, func(w *core.Worker, idx int64) {
 			s := sc(w)
-			s.buf = append(s.buf[:0], []string{"sip:", "sips:"}[idx%2]...)
-			s.buf = es.appendStr(s.buf, idx/2)
+			s.buf = append(s.buf[:0], []string{"sip:", "sips:", "tel:"}[idx%3]...)
+			s.buf = es.appendStr(s.buf, idx/3)
 			var u sipsp.PsipURI
 			var e sipsp.ErrorURI
 			pan, _, _ := core.Guard(func() { e, _ = sipsp.ParseURI(s.buf, &u) })
@@ -376,7 +376,7 @@ func RunC10(r *core.Run) {
 			w.NontrivialEnum()
 		})
 		st.Exhaustive = true
-		st.Space = es.Desc() + " after sip: and sips:"
+		st.Space = es.Desc() + " after sip:, sips: and tel:"
 	}
 	r.Require("C10 accepted CSeq values", r.Counter("cseq_accepted"), 500)
 	r.Require("C10 rejected out-of-range uint values", r.Counter("uint_rejected_out_of_range"), 500)
